@@ -191,6 +191,7 @@ type SrvReq struct {
 	Conn   *Conn   // Connection that the request belongs to
 
 	status     reqStatus
+	seq        int     // arrival number on the connection
 	flushreq   *SrvReq // first of the Tflush requests waiting for this request
 	flushnext  *SrvReq // next Tflush waiting for the same request as this Tflush
 	prev, next *SrvReq
